@@ -50,7 +50,9 @@ type Result struct {
 	OracleFailures     []Failure      `json:"oracle_failures"`
 	Mismatches         []Mismatch     `json:"mismatches"`
 	Notes              []string       `json:"notes"`
-	GenFiles           []string       `json:"gen_files"`
+	GenStages          [][]string     `json:"gen_stages"`   // generated Coq files: stages compiled in order, files of a stage in parallel
+	GenParallel        []string       `json:"gen_parallel"` // independent generated Coq files (compiled in parallel)
+	GenFiles           []string       `json:"gen_files"`    // generated Coq files compiled afterwards, in order
 
 	distinct map[string]bool
 	mu       sync.Mutex
